@@ -296,9 +296,11 @@ def d20_class(orig, bad, detail):
     if 'arity' in detail:
         return 'crc-type-cleared (CRC item ignored, type 0 accepted)'
     if len(diffs) == 1 and orig[diffs[0]] == 0x2f:
-        return 'eid-final-slash (urlsplit drops ?query/#fragment, "/" re-inserted)'
+        return 'eid-final-slash (-> TAB/CR/LF removed by urlsplit, "/" re-inserted)'
     if len(diffs) == 1 and 0x40 <= orig[diffs[0]] <= 0x5b and bad[diffs[0]] < 0x20:
         return 'bstr-slot-holds-uint (bytes(int) -> zero octets)'
+    if len(diffs) == 1 and orig[diffs[0]] == 0x82 and bad[diffs[0]] == 0x42:
+        return 'eid-array-as-bstr (2-octet byte string indexed like the [scheme, ssp] array)'
     if len(diffs) == 1 and orig[diffs[0]] == 0x01 and bad[diffs[0]] == 0xf5:
         return 'python-equality-coercion (CBOR true == 1 accepted as the integer)'
     return 'other'
